@@ -565,7 +565,12 @@ pub fn parse_cfg_raw_string(
             filter_platform_specific_cfg(xs, def_local_keys_variant_to_apply, &mut lsp_hints)
         })
         .and_then(|xs| filter_env_specific_cfg(xs, &env_vars, &mut lsp_hints))
-        .and_then(|xs| expand_templates(xs, &mut lsp_hints))?;
+        .and_then(|xs| expand_templates(xs, &mut lsp_hints))
+        // A template can produce platform and environment items.
+        .and_then(|xs| {
+            filter_platform_specific_cfg(xs, def_local_keys_variant_to_apply, &mut lsp_hints)
+        })
+        .and_then(|xs| filter_env_specific_cfg(xs, &env_vars, &mut lsp_hints))?;
 
     if let Some(spanned) = spanned_root_exprs
         .iter()
